@@ -237,6 +237,12 @@ def generate(rng, seed, run, tier, focus='C01', xmode=False):
         s = rng.choice(live)
         li, n, m, nc = shadow[s]
         w = rng.randrange(4)
+        if xmode and rng.random() < 0.06:
+            # labels the context does not have: the error names a label (World X compares the messages)
+            unknown = rng.sample(['nope', 'zz', 'o99', '?', 'Ø', 'p99', 'none', '0x'], rng.choice([1, 2, 2, 3, 4]))
+            events.append(['q_unknown', s, rng.choice(['intension', 'extension', 'getitem', 'neighbors', 'lat_getitem', 'lat_call']),
+                           unknown, idxs(n, lo=0)[:2]])
+            continue
         if kind == 'ctx_drop':
             ev = [kind, s]
             shadow[s] = None
@@ -1072,6 +1078,33 @@ class Live:
             rec.check('C01.extension_eq_model', out.ok and out.value == want,
                       lambda: f'extension({names!r}, raw={ev[3]}) = {out.text()} model {want!r} rows={f.rows}')
             rec.log(out.text())
+            return (s,)
+        if kind == 'q_unknown':
+            _, _, how, unknown, known_idx = ev
+            knownn = [sl.objs[i % f.n] for i in known_idx] if how in ('intension', 'getitem', 'neighbors', 'lat_getitem') else []
+            names = knownn[:1] + list(unknown) + knownn[1:]
+            if how in ('lat_getitem', 'lat_call'):
+                lat = self.lattice_of(sl, 0, kind)[0]
+                fn = lat.__getitem__ if how == 'lat_getitem' else lat
+            else:
+                fn = {'intension': ctx.intension, 'extension': ctx.extension, 'getitem': ctx.__getitem__,
+                      'neighbors': ctx.neighbors}[how]
+            out = call(fn, tuple(names))
+            text = out.text(with_message=True)
+            # the labels a KeyError may legitimately name: those unknown on the axis that is consulted last
+            if how in ('intension', 'neighbors'):
+                cands = [x for x in names if x not in sl.objs]
+            elif how in ('extension', 'lat_call'):
+                cands = [x for x in names if x not in sl.props]
+            else:    # objects are tried first, then properties
+                cands = [x for x in names if x not in sl.props] if any(x not in sl.objs for x in names) else []
+            cands = list(dict.fromkeys(cands))
+            if (len(cands) >= 2 and not out.ok and isinstance(out.exc, KeyError) and len(out.exc.args) == 1
+                    and out.exc.args[0] in cands):
+                rec.log_side('!KeyError naming one of the unknown labels given', repr(out.exc.args[0]))
+                rec.log('see side channel')
+            else:
+                rec.log(text)
             return (s,)
         if kind == 'q_get':
             names, e, i = self._key(sl, ev[2], ev[3])
